@@ -5,7 +5,7 @@
    FALSE of the model (and, the model being the observed behaviour, of layercake). *)
 From LC Require Import Lib.Bytes Lib.Lex Lib.Fields Lib.PathM Gen.Consts
   Model.MountInfo Model.FsTree Model.Kernel Model.Layers Cases.Verdict Cases.LC Cases.C01
-  Proofs.MntTraceP Proofs.MntNeededP Proofs.MntOrderP Proofs.MntKernelP Proofs.C01P.
+  Proofs.MntTraceP Proofs.MntNeededP Proofs.MntOrderP Proofs.MntKernelP Proofs.MntPostP Proofs.C01P.
 Import LC LCS.
 Open Scope N_scope.
 
@@ -24,6 +24,9 @@ Definition base_fs : fsT :=
         "/b/layers/base0/build/opt"; "/b/layers/base0/build/root"; "/b/layers/base0/build/sbin";
         "/b/layers/base0/build/usr";
         "/b/layers/d1"; "/b/layers/d1/build"; "/b/layers/d1/overlayfs";
+        "/b/layers/d1/build/bin"; "/b/layers/d1/build/etc"; "/b/layers/d1/build/lib";
+        "/b/layers/d1/build/opt"; "/b/layers/d1/build/root"; "/b/layers/d1/build/sbin";
+        "/b/layers/d1/build/usr";
         "/b/layers/d1/overlayfs/workdir"; "/b/layers/d1/overlayfs/upperdir"]%string
   ++ [(bs "/b/default_layerconfig.skel", File [])].
 Definition root_line : kline :=
@@ -56,6 +59,40 @@ Example C01_hyps_nontrivial :
   /\ C01.mount_post ex_cfg (wo_fs w_good) (layers_on_disk ex_cfg (wo_fs w_good))
        (chain ex_cfg (wo_fs w_good) d1) (ks_tab (wo_ks (v_after v_good))) = true
   /\ C01.step_spec ex_cfg w_good v_good = true.
+Proof. vm_compute. repeat split; reflexivity. Qed.
+
+(* the additional hypotheses of C01_post_count_partial / C01_post_partial / C01_model_partial *)
+Example C01_post_hyps_nontrivial :
+  rbind_clear ex_cfg (chain ex_cfg (wo_fs w_good) d1) = true
+  /\ nostack0 ex_cfg (chain ex_cfg (wo_fs w_good) d1) (ks_tab (wo_ks w_good)) = true
+  /\ pre_right ex_cfg (wo_fs w_good) (chain ex_cfg (wo_fs w_good) d1) (ks_tab (wo_ks w_good)) = true
+  /\ nodup_targets ex_cfg (chain ex_cfg (wo_fs w_good) d1) = true
+  /\ nocomma_paths ex_cfg (layers_on_disk ex_cfg (wo_fs w_good)) (chain ex_cfg (wo_fs w_good) d1) = true
+  /\ ids_ok (wo_ks w_good) = true
+  /\ id_bound (wo_ks (v_after v_good)) = true.
+Proof. vm_compute. repeat split; reflexivity. Qed.
+
+(* the same hypotheses hold in a partially mounted prior state: the world after the first run
+   with the last import unmounted by hand; the second mount issues exactly one call *)
+Definition ks_of (r : kres) : kstate := match r with KOk k => k | KErr => ks0 end.
+Definition w_part : wobs :=
+  MkWO (wo_fs (v_after v_good)) (ks_of (kumount (wo_ks (v_after v_good)) (bs "/b/layers/d1/build/mnt") 0)).
+Definition v_part : sview := mview ex_cfg w_part ex_env d1 [].
+Example C01_hyps_partial_state :
+  wf_table (ks_tab (wo_ks w_part)) = true
+  /\ length (ks_tab (wo_ks w_part)) = 3%nat
+  /\ no_root_import ex_cfg (chain ex_cfg (wo_fs w_part) d1) = true
+  /\ psources_rbind ex_cfg (chain ex_cfg (wo_fs w_part) d1) = true
+  /\ rbind_clear ex_cfg (chain ex_cfg (wo_fs w_part) d1) = true
+  /\ nostack0 ex_cfg (chain ex_cfg (wo_fs w_part) d1) (ks_tab (wo_ks w_part)) = true
+  /\ pre_right ex_cfg (wo_fs w_part) (chain ex_cfg (wo_fs w_part) d1) (ks_tab (wo_ks w_part)) = true
+  /\ nodup_targets ex_cfg (chain ex_cfg (wo_fs w_part) d1) = true
+  /\ nocomma_paths ex_cfg (layers_on_disk ex_cfg (wo_fs w_part)) (chain ex_cfg (wo_fs w_part) d1) = true
+  /\ ids_ok (wo_ks w_part) = true
+  /\ id_bound (wo_ks (v_after v_part)) = true
+  /\ v_res v_part = ROk
+  /\ length (syscalls (v_log v_part)) = 1%nat
+  /\ C01.step_spec ex_cfg w_part v_part = true.
 Proof. vm_compute. repeat split; reflexivity. Qed.
 
 (* ------------------------------------------------------------------ (b) refuted without "not RFail" *)
@@ -107,7 +144,6 @@ Proof. vm_compute. repeat split; reflexivity. Qed.
 (* ------------------------------------------------------------------ (d) mount_post refuted for pre-existing mounts *)
 (* the import of the base layer is already mounted -- twice, by hand.  mount finds it mounted
    with the expected source, issues no call and succeeds; "exactly one mount" does not hold *)
-Definition ks_of (r : kres) : kstate := match r with KOk k => k | KErr => ks0 end.
 Definition cfg_dbase : bytes := bs "import bind /src /mnt" ++ nlb.
 Definition fs_d : fsT := dirs ["/b/layers/base0/build/mnt"]%string.
 Definition w_d0 : wobs := world fs_d cfg_dbase (bs "base base0" ++ nlb) ks0.
@@ -127,6 +163,30 @@ Example C01_post_refuted_prestacked :
   /\ C01.mount_post ex_cfg (wo_fs w_d) (layers_on_disk ex_cfg (wo_fs w_d))
        (chain ex_cfg (wo_fs w_d) (bs "base0")) (ks_tab (wo_ks (v_after v_d))) = false
   /\ C01.step_spec ex_cfg w_d v_d = false.
+Proof. vm_compute. repeat split; reflexivity. Qed.
+
+(* ------------------------------------------------------------------ (d) mount_post refuted without rbind_clear *)
+(* from a state where nothing of the layer is mounted: `import bind /src /mnt/sub` followed
+   by `import rbind /host /mnt`, /host having a submount /host/sub (itself a bind of /src).  The
+   recursive bind copies /host/sub onto <build>/mnt/sub, on top of the first import; the
+   stacked copy has the identity the first import expects, so the run succeeds *)
+Definition cfg_r : bytes :=
+  bs "base base0" ++ nlb ++ bs "import bind /src /mnt/sub" ++ nlb ++ bs "import rbind /host /mnt" ++ nlb.
+Definition fs_r : fsT := dirs ["/host"; "/host/sub"; "/b/layers/d1/build/mnt"; "/b/layers/d1/build/mnt/sub"]%string.
+Definition ks_r : kstate :=
+  ks_of (kmount (wo_fs (world fs_r [] cfg_r ks0)) ks0 (bs "/src") (bs "/host/sub") (bs "bind") MS_BIND []).
+Definition w_r : wobs := world fs_r [] cfg_r ks_r.
+Definition v_r : sview := mview ex_cfg w_r ex_env d1 [].
+Example C01_post_refuted_rbind_copy :
+  plain_env ex_env = true
+  /\ wf_table (ks_tab (wo_ks w_r)) = true
+  /\ no_root_import ex_cfg (chain ex_cfg (wo_fs w_r) d1) = true
+  /\ nostack0 ex_cfg (chain ex_cfg (wo_fs w_r) d1) (ks_tab (wo_ks w_r)) = true
+  /\ all_mounted ex_cfg (chain ex_cfg (wo_fs w_r) d1) (ks_tab (wo_ks w_r)) = false
+  /\ rbind_clear ex_cfg (chain ex_cfg (wo_fs w_r) d1) = false
+  /\ v_res v_r = ROk
+  /\ count_at (ks_tab (wo_ks (v_after v_r))) (bs "/b/layers/d1/build/mnt/sub") = 2%nat
+  /\ C01.step_spec ex_cfg w_r v_r = false.
 Proof. vm_compute. repeat split; reflexivity. Qed.
 
 (* ------------------------------------------------------------------ idempotence on the good world *)
